@@ -92,4 +92,15 @@ HostSplitLaw ==
                                                       /\ AllDigits(SubSeq(s, k + 1, Len(s)))
                                                       /\ NatOf(SubSeq(s, k + 1, Len(s))) = port
             /\ port >= NoPort
+
+(* the host of a valid authority does not depend on whether (or which) port is spelled, and for an
+   IP literal it is the text between the brackets *)
+HostIndependentOfPort ==
+    (fn = "parse_host" /\ ValidHostForm(s)) =>
+        LET b == BareAuthority(s) IN
+        /\ ParseHost(b).host = out /\ ParseHost(b).port = NoPort
+        /\ \A p \in {<<48>>, <<56, 48>>, <<54, 53, 53, 51, 53>>} :
+              /\ ValidHostForm(Authority(b, p))
+              /\ ParseHost(Authority(b, p)).host = out /\ ParseHost(Authority(b, p)).port = NatOf(p)
+        /\ b = (IF s # <<>> /\ s[1] = LBR THEN <<LBR>> \o out \o <<RBR>> ELSE out)
 ==========================================================================
